@@ -515,7 +515,11 @@ where
                             system_id.unwrap_or(StrTendril::new()),
                         );
                     }
-                    self.set_quirks_mode(quirk);
+                    // The DOCTYPE can only move the document to quirks or limited-quirks
+                    // mode; otherwise the mode it was created with stays as it is.
+                    if quirk != NoQuirks {
+                        self.set_quirks_mode(quirk);
+                    }
 
                     self.mode.set(InsertionMode::BeforeHtml);
                     return tokenizer::TokenSinkResult::Continue;
